@@ -84,7 +84,7 @@ Proof.
   - (* watcher *)
     destruct I as [V P N G D R W E]. constructor; cbn [nenv nfd npcs sigW sigD queue ndel]; auto.
     + intros [X|X]; apply D; rewrite H; [|right; right; exact X].
-      destruct ev; [left; exact X|right; left; reflexivity|left; exact X].
+      destruct ev; [left; exact X|right; left; reflexivity|left; exact X|left; exact X].
     + intros Hr Hp He. destruct (R Hr Hp He) as [X|X].
       * left. destruct ev; auto.
       * rewrite H in X. destruct X as [X|X]; [subst ev; left; reflexivity|right; exact X].
@@ -130,6 +130,11 @@ Proof.
       * exfalso. cbn in Fc'. rewrite Vp, V in Fc'. unfold ino in Fc'. rewrite Nat.eqb_refl in Fc'. discriminate.
   - (* delete signal, plain follow: the stream ends *)
     destruct I as [V P N G D R W E]. constructor; cbn [nenv nfd npcs sigW sigD queue ndel]; auto; try congruence.
+  - (* another entry of the directory: one more event that is not about the path *)
+    destruct I as [V P N G D R W E]. constructor; cbn [nenv nfd npcs sigW sigD queue ndel]; auto.
+    + intros [X|X]; apply D; [left; exact X|right]. apply in_app_or in X as [X|[X|[]]]; [exact X|discriminate].
+    + intros Hr Hp He. destruct (R Hr Hp He) as [X|X]; [left; exact X|right; apply in_or_app; left; exact X].
+    + intros i off F Hp Hi Ho Hs. destruct (W i off F Hp Hi Ho Hs) as [X|X]; [left; exact X|right; apply in_or_app; left; exact X].
 Qed.
 End NotifyProof.
 
@@ -214,6 +219,7 @@ Proof.
   - rewrite H. reflexivity.
   - rewrite H. cbn [spec_step sEnded sDl sE sRemoved negb andb].
     rewrite removed_b_true; [reflexivity|]. apply (iD _ _ _ I). left. assumption.
+  - reflexivity.
 Qed.
 
 Lemma nabs_init : nabs pre (ninit c0 tail) = spec_init c0 tail.
